@@ -149,6 +149,15 @@ def run(ctx):
         for bad in (["--threshold=abc"], ["--names=short"], ["--json", "--json-version=3"], ["--json-version=7"], ["--bogus-flag"],
                     ["--include=@undefined"], ["--include=/(/"], ["--verbose=perhaps"], ["--progress=zz"]):
             expect_fail("invalid option %s" % bad, args=bad)
+        # every boolean option, not one representative: a value that is not a boolean is refused
+        for flag in ("branches", "no-branches", "tags", "no-tags", "remotes", "no-remotes", "notes", "no-notes", "stash", "no-stash",
+                     "verbose", "no-verbose", "critical", "json", "progress", "no-progress", "show-refs", "version"):
+            for v in ("maybe", "", "2", "yes"):
+                expect_fail("boolean option --%s=%s" % (flag, v), args=["--%s=%s" % (flag, v)])
+        for bad in (["--include"], ["--exclude"], ["--include-regexp=("], ["--exclude-regexp=[a"], ["--exclude=/[/"], ["--refgroup=nope"],
+                    ["--exclude=@nope"], ["--include=@"], ["--names"], ["--threshold"], ["--json-version"], ["--threshold="], ["--names="],
+                    ["--json-version="], ["-x"], ["--"+"z" * 300]):
+            expect_fail("invalid option %s" % bad, args=bad)
         for fmt in ([], ["--json"], ["-j", "--json-version=1"], ["--json", "--json-version=2"], ["--names=none"], ["--no-progress"]):
             expect_fail("invalid sizer.threshold in gitconfig with %s" % fmt, config=[("sizer.threshold", "lots")], args=fmt)
             expect_fail("invalid sizer.names in gitconfig with %s" % fmt, config=[("sizer.names", "shortest")], args=[a for a in fmt if not a.startswith("--names")])
